@@ -31,27 +31,30 @@ From Coq Require Import String Ascii.
 From FA Require Import model.Base model.Json.
 Open Scope string_scope.
 
+Definition named := list (string * json).        (* named_schemas: full name -> parsed schema *)
+
+(* [PErrUnknown name tbl]: UnknownType(name); tbl is the caller's named_schemas dictionary as the
+   failed parse leaves it (entries written before the failure; load_schema's retry loop sees them) *)
 Inductive pres (A : Type) :=
 | POk (x : A)
 | PErrParse
-| PErrUnknown (name : string)
+| PErrUnknown (name : string) (tbl : named)
 | PErrOther
 | PFuel.
-Arguments POk {A} x. Arguments PErrParse {A}. Arguments PErrUnknown {A} name.
+Arguments POk {A} x. Arguments PErrParse {A}. Arguments PErrUnknown {A} name tbl.
 Arguments PErrOther {A}. Arguments PFuel {A}.
 
 Definition pbind {A B} (r : pres A) (f : A -> pres B) : pres B :=
   match r with
   | POk x => f x
   | PErrParse => PErrParse
-  | PErrUnknown n => PErrUnknown n
+  | PErrUnknown n tb => PErrUnknown n tb
   | PErrOther => PErrOther
   | PFuel => PFuel
   end.
 Notation "'let+' x ':=' e 'in' f" := (pbind e (fun x => f))
   (at level 200, x pattern, right associativity).
 
-Definition named := list (string * json).        (* named_schemas: full name -> parsed schema *)
 Record pstate := mkst { st_names : list string; st_tbl : named }.
 
 (** ---- constants (compared with /repo by srcfacts/SF_schema.v) ---- *)
@@ -490,9 +493,9 @@ Section Open.
                         | Some dv => let+ b := default_matches_prim dv (JStr t) in if b then POk tt else PErrParse
                         end in
               POk (JObj base, st)
-            else PErrUnknown "<dict>"
+            else PErrUnknown "<dict>" (st_tbl st)
         | JArr _ | JObj _ => PErrOther        (* unhashable in "schema_type in PRIMITIVES" *)
-        | _ => PErrUnknown "<dict>"
+        | _ => PErrUnknown "<dict>" (st_tbl st)
         end
     end.
 
@@ -521,7 +524,7 @@ Section Open.
                       | Some dv => let+ b := default_matches (st_tbl st) dv (JStr q) in if b then POk tt else PErrParse
                       end in
             POk (JStr q, st)
-          else PErrUnknown q
+          else PErrUnknown q (st_tbl st)
     | JObj kv => parse_dict kv ns wh st d
     | _ => PErrOther
     end.
